@@ -25,10 +25,18 @@ def main() -> int:
             if tier == "thorough":
                 leanchecker(ctx, mod.MODULE)
         mod.run(ctx, built)
-    except Exception:
+    except Exception as e:
         tb = traceback.format_exc()
-        print("INFRASTRUCTURE ERROR\n" + tb, file=sys.stderr)
-        return 2
+        frames = traceback.extract_tb(e.__traceback__)
+        in_repo = [f for f in frames if str(REPO / "syndiffix") in f.filename]
+        if not in_repo:
+            print("INFRASTRUCTURE ERROR\n" + tb, file=sys.stderr)
+            return 2
+        # the exception was raised inside the implementation under a stream that completes on the tree the machinery was built for:
+        # the stream is cut short; this is a broken correspondence (the model has no such error), and the failing-input search runs
+        last = in_repo[-1]
+        print("IMPLEMENTATION RAISED inside a stream\n" + tb, file=sys.stderr)
+        ctx.obligation(f"streams complete (the implementation raised {type(e).__name__} in {os.path.basename(last.filename)}:{last.lineno} {last.name})", "correspondence", False, str(e)[:300])
     rc = finish(ctx, mod)
     ok = sum(1 for o in ctx.obligations if o["ok"])
     print(f"{pid} {tier} seed={seed}: obligations {ok}/{len(ctx.obligations)}; "
